@@ -173,12 +173,12 @@ func (fkai *fixedKeyArrayIndex) GetOffset(key Key) (int64, error) {
 			return offset, nil
 		case -1:
 			if lo == hi {
-				break
+				return -1, ErrKeyNotFound
 			}
 			lo = mid + 1
 		case 1:
 			if lo == hi {
-				break
+				return -1, ErrKeyNotFound
 			}
 			hi = mid - 1
 		}
